@@ -22,6 +22,12 @@ Inductive input :=
        hostless: the driver built it without a host; o: what url.Parse says *)
 | IDiscover (asked doc_iss : string)
     (* client.Discover(asked) against a server whose document says doc_iss *)
+| IRoFlow (r : router) (c : config) (k : client_kind) (p : ro_placement)
+    (qm om : option string) (qc oc : option vrel) (sent : bool)
+    (* full code flow (authorize -> login -> callback -> token) of a client of kind k whose authorization request
+       carries a signed request object with its own state, nonce, scope and redirect_uri (the other parameters
+       placed as p says); code_challenge_method in the query (qm) / in the object (om), relation of the token
+       request's verifier to the code_challenge in the query (qc) / in the object (oc), verifier sent or not *)
 | ITokens (r : router) (c : config) (q : request) (k : client_kind) (jwt : bool) (fls : list flow).
     (* while sending q: fetch the document, then run every flow of fls as a client of kind k
        (registered for everything, credentials sent the way it is registered) whose access tokens are
@@ -37,6 +43,9 @@ Inductive observed :=
 | OReqObj (advertised : bool) (res : ro_result)
 | OIssuer (res : iss_result) (split : option url_split)
 | ODiscover (accepted : bool)
+| ORoFlow (adv_pkce : list string) (adv_ro : bool) (res : option bool)
+    (* res: None = no tokens; Some carried = tokens, and whether callback and tokens carry what the OBJECT said
+       (state in the callback, nonce in the ID token, scope of the response, redirect target) *)
 | OTokens (ok : bool) (iss : string) (results : list flow_result)
 | OPanic.
 
@@ -72,6 +81,8 @@ Definition model (i : input) : observed :=
                end)
               (if o_error o then None else Some (split_url raw))
   | IDiscover asked d => ODiscover (discover_check asked d)
+  | IRoFlow r c k p qm om qc oc sent =>
+      ORoFlow (doc_pkce c) (doc_reqparam c) (if ro_pkce_issued r c k p qm om qc oc sent then Some true else None)
   | ITokens r c q k jwt fls => OTokens true (doc_issuer r c q) (map (flow_model r c q k jwt) fls)
   end.
 
@@ -191,6 +202,25 @@ Definition spec (i : input) (o : observed) : bool :=
       if bad_issuer api raw hostless insecure then negb (iss_eqb res IssOk) else true
   | IDiscover asked d, ODiscover accepted =>
       if String.eqb asked d then true else negb accepted
+  | IRoFlow r c k p qm om qc oc sent, ORoFlow adv_pkce adv_ro res =>
+      (* advertised request-object support and a placement OIDC Core 6.1 allows: the object is honoured all the
+         way - what it says supersedes the query (merge) - so tokens that come back carry the object's values,
+         and with an advertised method bound to the code (wherever challenge and method travelled) tokens are
+         issued exactly when the verifier satisfies that method *)
+      if adv_ro && ro_legal p then
+        match res with
+        | Some false => false
+        | _ =>
+            match merge qc oc, merge qm om with
+            | Some rel, Some m =>
+                if string_in m adv_pkce
+                then Bool.eqb (match res with Some _ => true | None => false end)
+                              (rel_matches m (if sent then rel else VAbsent) && client_ok c k)
+                else true
+            | _, _ => true
+            end
+        end
+      else true
   | ITokens r c q k jwt fls, OTokens ok iss results =>
       ok
       && String.eqb iss (issuer_of c q)       (* the issuer the strategy derives from THIS request *)
@@ -217,6 +247,7 @@ Definition obs_eqb (a b : observed) : bool :=
   | OReqObj a1 r1, OReqObj a2 r2 => Bool.eqb a1 a2 && ro_eqb r1 r2
   | OIssuer r1 s1, OIssuer r2 s2 => iss_eqb r1 r2 && option_eqb split_eqb s1 s2
   | ODiscover a1, ODiscover a2 => Bool.eqb a1 a2
+  | ORoFlow a1 b1 r1, ORoFlow a2 b2 r2 => list_eqb String.eqb a1 a2 && Bool.eqb b1 b2 && option_eqb Bool.eqb r1 r2
   | OTokens k1 i1 r1, OTokens k2 i2 r2 => Bool.eqb k1 k2 && String.eqb i1 i2 && list_eqb flow_result_eqb r1 r2
   | OPanic, OPanic => true
   | _, _ => false
@@ -251,6 +282,14 @@ Definition path (i : input) (o : observed) : nat :=
       | IssURL => 61 | IssMissingHost => 62 | IssHTTPS => 63 | IssPath => 64 | IssOk => 65
       end
   | IDiscover _ _, ODiscover a => 70 + (if a then 1 else 0)
+  | IRoFlow r c k p qm om qc oc sent, ORoFlow _ adv_ro res =>
+      (* object refused = trivial; else: issued or not, who carried the method, who carried the challenge *)
+      if adv_ro then
+        140 + (match res with Some _ => 1 | None => 0 end)
+        + 2 * (match qm, om with None, None => 0 | Some _, None => 1 | None, Some _ => 2 | Some _, Some _ => 3 end)
+        + 8 * (match qc, oc with None, None => 0 | Some _, None => 1 | None, Some _ => 2 | Some _, Some _ => 3 end)
+        + 32 * (if ro_legal p then 0 else 1)
+      else 0
   | ITokens r c q k jwt fls, OTokens _ _ results =>
       (* how many flows issued, which strategy, JWT access tokens or not; nothing issued = trivial *)
       match count_issued results with
